@@ -146,8 +146,11 @@ Triples(S, id0) ==
 RetryKinds == {"lost", "garbage", "stamped"}
 Garbage == [React0 EXCEPT !.datagrams = << Dg(B(<<6, 0, 255, 7, 6, 17, 1>>), [kind |-> "garbage"]) >>]
 Lost == React0
+\* a well-formed session-less IPMI message (a late Get Channel Authentication Capabilities reply from the probing that
+\* precedes a session): not an answer to a set-up payload, so the payload is sent again
+StrayMsg == [React0 EXCEPT !.datagrams = << Dg(NullWrapper(0, B(MsgRspBytes(129, 7, 0, 1, 0, 56, 0, <<1, 151, 4, 2, 0, 0, 0, 0>>))), [kind |-> "stray-message"]) >>]
 LegRetry(id, S, leg, seqn) ==
-  LET pre(k) == [i \in 1..Len(seqn) |-> IF seqn[i] = "lost" THEN Lost ELSE Garbage]
+  LET pre(k) == [i \in 1..Len(seqn) |-> IF seqn[i] = "lost" THEN Lost ELSE IF seqn[i] = "stray" THEN StrayMsg ELSE Garbage]
       l1 == (IF leg = 1 THEN pre(1) ELSE <<>>) \o <<HonestOsr(S)>>
       l2 == (IF leg = 2 THEN pre(2) ELSE <<>>) \o <<HonestRakp2(S)>>
       l3 == (IF leg = 3 THEN pre(3) ELSE <<>>) \o <<HonestRakp4(S)>>
@@ -204,7 +207,7 @@ TripleSet ==
 
 RetrySet ==
   LET S0 == Scn(9700 + Seed, 1 + (Seed % 3), IF (Seed % 3) = 2 THEN 4 ELSE 1 + (Seed % 3), 1, 6, 10, (Seed % 2) = 0, 4, TRUE)
-      seqs == {<<x>> : x \in {"lost", "garbage"}} \cup {<<x, y>> : x \in {"lost", "garbage"}, y \in {"lost", "garbage"}}
+      seqs == {<<x>> : x \in {"lost", "garbage", "stray"}} \cup {<<x, y>> : x \in {"lost", "garbage", "stray"}, y \in {"lost", "garbage", "stray"}}
               \cup {<<x, y, z>> : x \in {"lost", "garbage"}, y \in {"lost", "garbage"}, z \in {"lost", "garbage"}}
   IN { LegRetry("r" \o ToString(leg) \o "-" \o ToString(Len(sq)) \o "-" \o sq[1] \o (IF Len(sq) > 1 THEN sq[2] ELSE "") \o (IF Len(sq) > 2 THEN sq[3] ELSE ""), S0, leg, sq)
          : leg \in 1..3, sq \in seqs }
@@ -301,6 +304,15 @@ Rekey(id, S1, kind, bmcKnowsNew) ==
                 THEN << NewSessionCall(S2, ExpErr(S2, "ErrIncorrectPassword")), HonestOsr(S1), HonestRakp2(S1), ExpectSession(S1) >>
                 ELSE << NewSessionCall(S2, ExpErr(S2, "error")), HonestOsr(S1), HonestRakp2(S1), HonestRakp4(S1), ExpectSession(S1) >>
   IN ScriptOf(id, "rekey", S1, first \o second, [mut |-> IF bmcKnowsNew THEN "none" ELSE (IF kind = "pw" THEN "wrongPw" ELSE "wrongKg")])
+\* one *V2SessionOpts value used for two BMCs with different passwords (no KG: the password is the key): only the
+\* Password field is reassigned in between (harness option keepOpts; args of the second call list just that field)
+FleetScript(id, S1) ==
+  LET S2 == [S1 EXCEPT !.pw = [i \in 1..Len(S1.pw) |-> (S1.pw[i] * 3 + i) % 256], !.bmcSid = <<9, 8, 7, 6>>, !.rc = [i \in 1..16 |-> (i * 9) % 256]]
+      c2 == NewSessionCall(S2, ExpSession(S2)) IN
+  ScriptOf(id, "fleet", S1,
+           << NewSessionCall(S1, ExpSession(S1)) @@ [keepOpts |-> TRUE], HonestOsr(S1), HonestRakp2(S1), HonestRakp4(S1), ExpectSession(S1), CloseCall(S1), CloseReact(S1, 1, 0),
+              [c2 EXCEPT !.args = [Password |-> S2.pw]] @@ [keepOpts |-> TRUE], HonestOsr(S2), HonestRakp2(S2), HonestRakp4(S2), ExpectSession(S2) >>, [mut |-> "none"])
+FleetSet == { LET s == SetToSuite(q) IN FleetScript("fleet-" \o ToString(q), Scn(16000 + q + Seed, s[1], s[2], 1, 3 + q, 6 + q, FALSE, 4, TRUE)) : q \in 1..9 }
 RekeySet ==
   { LET s == SetToSuite(q) IN
     Rekey("rekey-" \o ToString(q) \o "-" \o kind \o (IF kn THEN "-new" ELSE "-old"), Scn(13000 + q + Seed, s[1], s[2], 1, 4 + (q % 9), 1 + (q % 20), TRUE, 4, (q % 2) = 0), kind, kn)
@@ -315,9 +327,21 @@ LongUserSet ==
     ScriptOf("longuser-" \o ToString(n), "longuser", S,
              << NewSessionCall(S, ExpErr(S, "userTooLong")), HonestOsr(S), HonestRakp2(S), HonestRakp4(S), ExpectSession(S) >>, [mut |-> "none"])
     : n \in {17, 18, 20, 32, 33, 64, 255, 256, 257, 260, 272, 273, 512, 516} }
+\* the caller's password / KG is longer than 20 bytes and its first 20 bytes are exactly what the BMC holds: the keyed
+\* hashes are taken under different keys, so there is no session
+LongCredSet ==
+  { LET s == SetToSuite(q)
+        SB == Scn(15000 + q + Seed, s[1], s[2], 1, 4, 20, TRUE, 4, TRUE)
+        S == IF kind = "pw" THEN [SB EXCEPT !.pw = @ \o [i \in 1..extra |-> (i * 7 + q) % 256]] ELSE [SB EXCEPT !.kg = @ \o [i \in 1..extra |-> (i * 5 + q) % 256]] IN
+    ScriptOf("longcred-" \o ToString(q) \o "-" \o kind \o "-" \o ToString(extra), "longcred", S,
+             IF kind = "pw"
+             THEN << NewSessionCall(S, ExpErr(S, "ErrIncorrectPassword")), HonestOsr(SB), HonestRakp2(SB), ExpectSession(SB) >>
+             ELSE << NewSessionCall(S, ExpErr(S, "error")), HonestOsr(SB), HonestRakp2(SB), HonestRakp4(SB), ExpectSession(SB) >>,
+             [mut |-> IF kind = "pw" THEN "wrongPw" ELSE "wrongKg"])
+    : q \in 1..9, kind \in {"pw", "kg"}, extra \in {1, 4, 12, 44} }
 Scripts == CASE Family = "honest" -> HonestSet \cup NoneSet \cup DefaultSet
              [] Family = "longuser" -> LongUserSet
-             [] Family = "rekey" -> RekeySet
+             [] Family = "rekey" -> RekeySet \cup LongCredSet \cup FleetSet
              [] Family = "lifecycle" -> LifecycleSet
              [] Family = "long" -> LongSet
              [] Family = "mutate" -> MutateSet
